@@ -72,10 +72,11 @@ def run(facts, res):
              and st.place.proj[-1].get("of", "").endswith("Delta")]
     for bi, t in ins:
         k = arg_term(c, t, 1, 20)
-        kv = {x[1] for x in walk(k) if x[0] == "var" and x[2] == "deltaid"}
+        idvars = {y[1] for y in walk(arg_term(c, bw[0][1], 1, 12)) if y[0] == "var"} if bw else set()
+        kv = {x[1] for x in walk(k) if x[0] == "var" and x[1] in idvars}
         idv = set()
         for st in idset:
-            idv |= {x[1] for x in walk(du.rvalue_term(st.rv, 20)) if x[0] == "var" and x[2] == "deltaid"}
+            idv |= {x[1] for x in walk(du.rvalue_term(st.rv, 20)) if x[0] == "var" and x[1] in idvars}
         ok = bool(kv) and bool(kv & idv)
         res.instance("I1", "commit: block map key and delta.id are the new id: %s" % ok, c.loc(t.line))
         if not ok:
